@@ -279,6 +279,19 @@ def check_monotone(ctx, classes):
                     pos = const_value(v) > 0 and isinstance(const_value(v), int)
                 except ValueError:
                     pos = isinstance(v, ast.Call) and dotted(v.func) == "len" and len(v.args) == 1
+                if not pos and isinstance(v, ast.Name) and v.id in positional_params(fi.node):
+                    # the amount is a parameter of a counting helper: every caller must pass a positive literal / len(...)
+                    idx = positional_params(fi.node).index(v.id) - (1 if positional_params(fi.node)[0] in ("self", "cls") else 0)
+                    sites = [c for g in repo.all_functions() for c in body_walk(g.node) if isinstance(c, ast.Call) and ((isinstance(c.func, ast.Attribute) and c.func.attr == fi.name) or (isinstance(c.func, ast.Name) and c.func.id == fi.name))]
+                    def _amount_ok(a):
+                        if a is None:
+                            return False
+                        try:
+                            cv = const_value(a)
+                            return isinstance(cv, int) and not isinstance(cv, bool) and cv > 0
+                        except ValueError:
+                            return isinstance(a, ast.Call) and dotted(a.func) == "len" and len(a.args) == 1
+                    pos = bool(sites) and all(_amount_ok(arg_or_kw(c, idx, v.id)) for c in sites)
                 ok = isinstance(w.op, ast.Add) and pos
                 ctx.check(ok, R3, cons, "increased by a positive literal / len(...)", f"{attr} is updated by `{short(w)}`: not an increase by a positive literal or len(...), so it can decrease or miscount", where)
             else:
